@@ -57,7 +57,7 @@ func TestC15(t *testing.T) {
 				c.Vals = append(c.Vals, Hex(b))
 			}
 		case "TypeEnc":
-			c.Block = rapid.IntRange(0, 2).Draw(t, "struct")
+			c.Block = rapid.IntRange(0, teKinds-1).Draw(t, "eltkind")
 			c.Scrib = rapid.IntRange(0, 1).Draw(t, "bigendian") | rapid.IntRange(0, 1).Draw(t, "pointer")<<1 | rapid.IntRange(0, 3).Draw(t, "ctor")<<2
 			n := rapid.IntRange(1, 6).Draw(t, "n")
 			for i := 0; i < n; i++ {
